@@ -818,6 +818,66 @@ func (e *vC04Env) runConcurrent(c *vC04Case, hi int) {
 	}
 }
 
+// runRemovalOutputKey: a transaction X reserves key K at admission; a node removal whose removal output carries K
+// arrives on the finalization path.
+func (e *vC04Env) runRemovalOutputKey(i int) {
+	r := e.r
+	_, _, gtxs, err := e.sim.Net.Genesis.BuildSnapshots()
+	if err != nil {
+		return
+	}
+	gi := i % len(e.sim.Net.Signers)
+	var acc *common.VersionedTransaction
+	for _, gt := range gtxs {
+		if len(gt.Outputs) > 0 && gt.Outputs[0].Type == common.OutputTypeNodeAccept && len(gt.Extra) >= 32 &&
+			string(gt.Extra[:32]) == string(e.sim.Net.Signers[gi].PublicSpendKey[:]) {
+			acc = gt
+		}
+	}
+	if acc == nil {
+		r.Count("removal_output_setup_no_genesis_transaction", 1)
+		return
+	}
+	in := e.takeOut()
+	ins := []*verifgen.Out{in}
+	x := verifgen.SignMap(verifgen.BuildTx(e.asset, ins, []verifgen.OutSpec{e.spec(1000)}, []byte("x"), nil), ins, verifgen.FirstN(ins))
+	if err := e.sim.Admit(x, e.sim.NextTime(1)); err != nil {
+		r.Count("removal_output_setup_owner_not_admitted", 1)
+		return
+	}
+	xh := x.PayloadHash()
+	payee := e.sim.Net.Payees[gi]
+	rm := verifgen.Remove(e.sim.Net.Signers[gi].PublicSpendKey, payee.PublicSpendKey, &payee, acc, e.seed("rm"), []crypto.Hash{e.sim.LastConsensusTx})
+	rm.Outputs[0].Keys, rm.Outputs[0].Mask = x.Outputs[0].Keys, x.Outputs[0].Mask
+	rm = rm.Transaction.AsVersioned()
+	rh := rm.PayloadHash()
+	key := *x.Outputs[0].Keys[0]
+	var werr error
+	panicked, pv, _ := verifkit.Guard(func() {
+		if werr = e.store.LockUTXOs(rm.Inputs, rh, true); werr != nil {
+			return
+		}
+		if werr = e.store.WriteTransaction(rm); werr != nil {
+			return
+		}
+		werr = e.store.WriteSnapshot(e.snapshot(rh, i), []crypto.Hash{e.sim.Chain})
+	})
+	r.Eval()
+	r.Count("removal_outputs_with_a_reserved_key_offered", 1)
+	owner, _ := e.store.ReadGhostKeyLock(key)
+	wit := map[string]any{"first_owner": xh.String(), "removal": rh.String(), "error": fmt.Sprint(werr), "panic": fmt.Sprint(pv)}
+	if !panicked && werr == nil {
+		r.Violation("C04|finalization|removal-output|key-of-another-transaction-accepted", "finalizing a node removal whose output key is reserved for another transaction succeeded", wit)
+	}
+	if owner == nil || *owner != xh {
+		r.Violation("C04|finalization|removal-output|binding-changed", "the binding of a reserved key changed when a node removal carrying it was finalized", wit)
+	}
+	if u, _ := e.store.ReadUTXOLock(rh, 0); u != nil {
+		r.Violation("C04|finalization|removal-output|output-materialized", "the removal output carrying another transaction's key was written", wit)
+	}
+	r.Nontrivial(fmt.Sprintf("removal-key|%d", i))
+}
+
 // runDisplaced: the key of a transaction that lost its input to a rival stays bound to it.
 func (e *vC04Env) runDisplaced(i int) {
 	r, rng := e.r, e.rng
@@ -939,6 +999,11 @@ func TestVerif_C04(t *testing.T) {
 	ndisp := r.N(40, 600)
 	for i := 0; i < ndisp && r.Violations() == 0; i++ {
 		e.runDisplaced(i)
+	}
+	// outputs of other types that carry keys (a node removal's output): finalizing one whose key belongs to another
+	// transaction must fail as it does for script outputs
+	for i := 0; i < r.N(6, 60) && r.Violations() == 0; i++ {
+		e.runRemovalOutputKey(i)
 	}
 	r.Note("wall_s_sequential_phase", time.Since(t0).Seconds())
 	t1 := time.Now()
